@@ -331,6 +331,13 @@ def call(cx, e):
         if ty == CHUNK and tok in cx.spec.get('lf_tokens', ()):
             return f'(Sk.Py.Chunk.{e.func.attr} F {t})', INT
         raise Untranslatable(f'{src}: find on {ty} / token {tok}')
+    if fn == 'list' and len(e.args) == 1 and isinstance(e.args[0], ast.Call) and \
+            unparse(e.args[0].func) == 'range' and len(e.args[0].args) == 2 and cx.spec.get('nat'):
+        a, ta = expr(cx, e.args[0].args[0])
+        b, tb = expr(cx, e.args[0].args[1])
+        need(ta, NAT, src)
+        need(tb, NAT, src)
+        return f'(List.range\' {a} ({b} - {a}))', LISTN
     for pat, fn_ in cx.spec.get('calls', {}).items():
         if fn == pat:
             return fn_(cx, e)
@@ -519,6 +526,14 @@ def block(cx, stmts, k, loop=None):
         if loop is None:
             raise Untranslatable('continue outside a loop')
         return loop[0]()
+    if isinstance(s, ast.With):
+        names = [unparse(i.context_expr) for i in s.items]
+        if all(n in cx.spec.get('locks', ()) for n in names) and \
+                all(i.optional_vars is None for i in s.items):
+            # holding a lock changes nothing for ONE thread of control (the bridge of such a
+            # function speaks about its sequential meaning; the interleavings are C06's model)
+            return block(cx, list(s.body) + rest, k, loop)
+        raise Untranslatable(f'statement with {", ".join(names)}')
     if isinstance(s, ast.Try):
         # try: if c.apply_to_line(line): B   except CouldNotApplyConstraint: H
         # with c an oracle outcome: pass = returns True, fail = returns False, undec = raises
@@ -1139,6 +1154,13 @@ FUNCS = [
                  'self.extracted_datetime(line)': ('ts', OPTDT)},
          callees={'self._line_date_is_valid': 'line_date_is_valid'},
          state_out=['self__line_pass', 'self__line_fail'], py_args=['line'], fuel=False),
+    # ResultStoreParallel.preallocate, read sequentially (one thread of control): the block it
+    # returns and what it does to the shared allocation pointer
+    dict(name='preallocate', file='results_store.py', cls='ResultStoreParallel',
+         func='preallocate', params=[('size', NAT), ('self_ptr', NAT)], ret=LISTN,
+         lean_ret='List Nat × Nat', ctx='', ctx_args='',
+         attr_vars={'self.alloc_pointer.value': 'self_ptr'}, locks=('RESULTS_STORE_LOCK',),
+         state_out=['self_ptr'], nat=True, fuel=False),
     # SearchConstraintsManager.apply_single: what each of the search's constraints says about
     # the line is the oracle list `outs` (in the order of searchdef.constraints)
     dict(name='apply_single', file='search.py', cls='SearchConstraintsManager',
@@ -1247,6 +1269,16 @@ def translate_one(repo, spec):
                     'self_' + node.attr in declared:
                 return ast.copy_location(ast.Name(id='self_' + node.attr, ctx=node.ctx), node)
             return node
+    amap = spec.get('attr_vars', {})
+
+    class _AttrVars(ast.NodeTransformer):
+        def visit_Attribute(self, node):
+            if unparse(node) in amap:
+                return ast.copy_location(ast.Name(id=amap[unparse(node)], ctx=node.ctx), node)
+            self.generic_visit(node)
+            return node
+    if amap:
+        body = [ast.fix_missing_locations(_AttrVars().visit(b)) for b in body]
     if spec.get('collections'):
         body = [ast.fix_missing_locations(_SelfAttrs().visit(b)) for b in body]
     drop = cx.spec.get('drop_calls', ('log.debug', 'log.info', 'log.warning'))
